@@ -3,7 +3,7 @@ EXTENDS Store, StoreProps, TLC, Json, IOUtils, CSV
 
 CONSTANTS OutFile, Names, NB
 
-MCCases == {[a |-> a, b |-> b, nblocks |-> NB, cut |-> k] : a \in Names \cup {"none"}, b \in Names, k \in 0..NB}
+MCCases == {[a |-> a, b |-> b, nblocks |-> NB, cut |-> k, retry |-> r] : a \in Names \cup {"none"}, b \in Names, k \in 0..NB, r \in BOOLEAN} \ {x \in [a : Names \cup {"none"}, b : Names, nblocks : {NB}, cut : {NB}, retry : {TRUE}] : TRUE}
 
 AtEnd == pc = "stopped" /\ Len(starts) = 2
 \* the model names a start from an absent store "none"; observations call that "empty"
